@@ -36,6 +36,33 @@ theorem C12_tables_pinned :
     ∧ Jap.Gen.methodConfigGuard = ["config"]
     ∧ reservedNames = ["config", "subcommand"] := by decide
 
+def exBody' : Body := fun t _ => match t with
+  | .func f => .tok f
+  | .init c => .tok c
+  | .method _ m => .tok m
+
+/-- the expression that decides `enable_path` of a signature parameter is the one `enablePath` transcribes, `auto_cli`
+    passes `sub_configs=True`, and on a live parser the flag of every annotation kind is what `enablePath true` says for
+    the class `_add_signature_parameter` puts the annotation in — for a required positional and for an option alike.
+    Today that is: class-typed and callable-returning-class parameters only; none of str/int/float/bool, Optional,
+    List, Literal, Enum, `Union[int, str]`, `Any`, `Union[str, List[str]]` -/
+theorem C12_enable_path_pinned :
+    Jap.Gen.enablePathExpr
+      = ["sub_configs and (is_subclass_typehint or ActionTypeHint.is_return_subclass_typehint(annotation))"]
+    ∧ Jap.Gen.autoCliSubConfigs = [true]
+    ∧ (Jap.Gen.enablePathByType.all fun row =>
+        let tc : Option TyClass := match row.2.1 with
+          | "fastPath" => some .fastPath
+          | "subclass" => some .subclass
+          | "returnsSubclass" => some .returnsSubclass
+          | "other" => some .other
+          | _ => none
+        match tc with
+        | some c => row.2.2.1 == enablePath true c && row.2.2.2 == enablePath true c
+        | none => false) = true
+    ∧ (Jap.Gen.enablePathByType.filter (fun row => row.2.2.1 || row.2.2.2)).map (·.1)
+        = ["Class", "Optional[Class]", "Callable[[int], Class]"] := by decide
+
 /-! ## functions -/
 
 /-- exactly one call, with every parameter bound to the given value or else the signature default; the value
@@ -120,6 +147,45 @@ theorem C12_optional_none (body : Body) (asPos : Bool) (f : String) (sig : Sig) 
   simp only [bindParam, hg, effDefault, hnd, ho, if_true, Option.map_some] at hb1
   cases hb1
   exact hb2
+
+/-! ## values are bound verbatim (no file is read for them) -/
+
+/-- where `enable_path` is not set the given values are untouched, whatever files exist -/
+theorem C12_verbatim_values (fs : Val → Option Val) (ep : String → Bool) (given : KV)
+    (h : ∀ e ∈ given, ep e.1 = false) : loadGiven fs ep given = given := by
+  unfold loadGiven
+  conv => rhs; rw [← List.map_id given]
+  apply List.map_congr_left
+  intro e he
+  simp [h e he]
+
+/-- VERBATIM: a function none of whose parameters is class-typed (or a callable returning a class) — in particular every
+    string-accepting annotation: `str`, `Union[int, str]`, `Any`, `Union[str, List[str]]` — is called with `bind sig given`
+    in EVERY file system: a value that happens to name an existing file is bound as the string it is, for required
+    positionals, options and keyword-only parameters alike -/
+theorem C12_verbatim (body : Body) (asPos : Bool) (f : String) (sig : Sig) (g : Given) (r : Run)
+    (fs : Val → Option Val) (tcTop tcSub : String → TyClass)
+    (hd : distinctNames sig = true) (hr : noReserved sig = true)
+    (hplain : ∀ n, tcTop n = .fastPath ∨ tcTop n = .other)
+    (h : autoCliFS body asPos (.func f sig) g fs tcTop tcSub = .ok r) :
+    ∃ args, Cli.bind sig g.top = some args ∧ r.calls = [⟨.func f, args⟩] ∧ r.ret = body (.func f) args := by
+  have hep : ∀ e ∈ g.top, (fun n => enablePath true (tcTop n)) e.1 = false := by
+    intro e _
+    rcases hplain e.1 with h1 | h1 <;> simp [h1, enablePath]
+  unfold autoCliFS at h
+  rw [C12_verbatim_values fs _ g.top hep] at h
+  exact C12_binding body asPos f sig { g with sub := _ } r hd hr h
+
+/-- … and the substitution CAN only happen where `enable_path` is set: for a class-typed parameter the value that names
+    a file is replaced by the file's content (the documented way to give a class spec through a config file,
+    `sub_configs=True`; the property's "value given … in the config" is then that content) -/
+theorem C12_enable_path_witness :
+    let fs : Val → Option Val := fun v => if v = .tok "spec.yaml" then some (.tok "{class_path: Sub}") else .none
+    let sig : Sig := [⟨"model", .posOrKw, .none, false⟩, ⟨"name", .posOrKw, .none, false⟩]
+    let given : KV := [("model", .tok "spec.yaml"), ("name", .tok "spec.yaml")]
+    autoCliFS exBody' true (.func "f" sig) { top := given } fs
+        (fun n => if n = "model" then .subclass else .other) (fun _ => .other)
+      = .ok ⟨[⟨.func "f", [("model", .tok "{class_path: Sub}"), ("name", .tok "spec.yaml")]⟩], .tok "f"⟩ := by decide
 
 /-! ## classes -/
 
